@@ -22,7 +22,9 @@ pub fn score_eq(got: &[u8], want: f64) -> bool {
             if g.is_nan() {
                 return false;
             }
-            g == want // -0.0 == 0.0 is true; inf == inf is true
+            // inf == inf is true; a zero must carry the same sign everywhere it is reported
+            // (ZSCORE, WITHSCORES and the pops must agree on one member's score)
+            g == want && (g != 0.0 || g.is_sign_negative() == want.is_sign_negative())
         }
         None => false,
     }
@@ -136,7 +138,6 @@ fn inner(w: &mut World, db: usize, name: &str, a: &[Bytes], reply: &Reply) -> Re
                     let mut z = cur.map(|z| z.clone()).unwrap_or_default();
                     let mut n = 0;
                     for (m, s) in pairs {
-                        let s = if s == 0.0 { 0.0 } else { s };
                         match z.insert(m, s) {
                             None => n += 1,
                             Some(old) => {
@@ -176,13 +177,16 @@ fn inner(w: &mut World, db: usize, name: &str, a: &[Bytes], reply: &Reply) -> Re
                     };
                     let existed = cur.is_some();
                     let mut z = cur.map(|z| z.clone()).unwrap_or_default();
-                    let old = z.get(&a[3]).cloned().unwrap_or(0.0);
-                    let nv = old + inc;
+                    // IEEE arithmetic as in Redis: a new member starts at the increment itself
+                    // (so ZINCRBY k -0 m gives -0), an existing one at old + increment
+                    let nv = match z.get(&a[3]) {
+                        Some(old) => *old + inc,
+                        None => inc,
+                    };
                     if nv.is_nan() {
                         w.label("nan-increment");
                         return (chk_err(reply));
                     }
-                    let nv = if nv == 0.0 { 0.0 } else { nv };
                     chk_score(reply, nv)?;
                     z.insert(a[3].clone(), nv);
                     w.label("rescore");
